@@ -63,6 +63,10 @@ var asAttacks = []string{"honest", "sigkey", "enckey", "untrusted", "untrusted_s
 	"rsa", "rsa_enc", "rsa_sig", "swapped", "swapped_roles", "onecert", "threecerts",
 	"skx_rnd", "skx_cr", "skx_sr", "skx_enc2", "skx_key2", "skx_omit", "skx_junk", "skx_len", "fin_bad", "fin_label"}
 
+// attacks added later (round 6); generated after all older cases so that existing ids do not move
+var asAttacks2 = []string{"mimic_root", "mimic_root_sig", "mimic_root_enc"}
+var acAttacks2 = []string{"chain_honest", "chain_key2", "mimic_root_cert"}
+
 func serverAttack(name string) (srvAtk, bool) {
 	sigD, encD := E.sig.Certificate[0], E.enc.Certificate[0]
 	d := srvAtk{certs: [][]byte{sigD, encD}, signer: sm2Key(&E.sig), over: encD, dec: sm2Key(&E.enc), now: tNormal, name: "localhost"}
@@ -101,6 +105,13 @@ func serverAttack(name string) (srvAtk, bool) {
 		d.certs = [][]byte{sigD}
 	case "threecerts":
 		d.certs = [][]byte{sigD, encD, E.caSM2}
+	case "mimic_root":
+		d.certs = [][]byte{E.mSig.Certificate[0], E.mEnc.Certificate[0]}
+		d.signer, d.over, d.dec = sm2Key(&E.mSig), E.mEnc.Certificate[0], sm2Key(&E.mEnc)
+	case "mimic_root_sig":
+		d.certs[0], d.signer = E.mSig.Certificate[0], sm2Key(&E.mSig)
+	case "mimic_root_enc":
+		d.certs[1], d.over, d.dec = E.mEnc.Certificate[0], E.mEnc.Certificate[0], sm2Key(&E.mEnc)
 	case "skx_rnd":
 		d.skx = "rnd"
 	case "skx_cr":
@@ -384,6 +395,12 @@ func clientAttack(name string) (cliAtk, bool) {
 		d.noCertMsg = true
 	case "untrusted_cert":
 		d.cert = &E.uCli
+	case "chain_honest": // [genuine client certificate, unrelated certificate], CertificateVerify by the genuine key
+		d.cert = &gmtls.Certificate{Certificate: [][]byte{E.auth.Certificate[0], E.uCli.Certificate[0]}, PrivateKey: E.auth.PrivateKey}
+	case "chain_key2": // the same message, CertificateVerify by the key of the SECOND certificate
+		d.cert = &gmtls.Certificate{Certificate: [][]byte{E.auth.Certificate[0], E.uCli.Certificate[0]}, PrivateKey: E.uCli.PrivateKey}
+	case "mimic_root_cert":
+		d.cert = &E.mCli
 	case "expired_cert":
 		withAuth()
 		d.now = tExpired
